@@ -565,12 +565,12 @@ fn compile_depth(
 
                             return Ok(rhs)
                         }
-                        lhs => unimplemented!("bin_op_asign has not been implemented for this left hand operand: {lhs:?}")
+                        _ => bail!("`{}` needs a variable, a field or an indexed element on its left-hand side", op.symbol()),
                     }
                 }
                 Op::Unwrap => {
                     let Expr::Value(Value::Ident(ident)) = lhs_raw.as_ref() else {
-                        unreachable!("Expected ident in lhs, but got {lhs_raw:#?}");
+                        bail!("`?=` needs a variable name on its left-hand side");
                     };
 
                     let name = ident.name();
